@@ -298,6 +298,46 @@ mod groups {
         kani::cover!(before[0].4 > before[15].4, "lru is not the first slot");
     }
 
+    /// The same eviction step with FIXED, pairwise distinct sender keys (the LRU clocks, the windows and
+    /// the received counter stay symbolic): cheap enough for the quick tier. The fully symbolic version
+    /// is `c04_group_store_evict_step`.
+    // TIER: quick   KIND: bounded (sender keys fixed: (1, 1)..(1, 16) tracked, (2, 99) new; clocks, windows and counter symbolic)
+    #[kani::proof]
+    #[kani::unwind(18)]
+    fn c04_group_store_evict_step_fixed_keys() {
+        let mut st = GroupCtrStore::new();
+        st.clock = kani::any();
+        let (fab, node) = (2u8, 99u64);
+        let m: u32 = kani::any();
+        let mut i = 0u64;
+        while i < MAX_GROUP_CTR_ENTRIES as u64 {
+            let _ = st.entries.push(GroupCtrEntry {
+                fab_idx: 1,
+                src_nodeid: i + 1,
+                rx_ctr: RxCtrState { max_ctr: kani::any(), ctr_bitmap: kani::any() },
+                last_used: kani::any(),
+            });
+            i += 1;
+        }
+        let before = snapshot(&st);
+
+        let r = st.post_recv(fab, node, m);
+
+        let after = snapshot(&st);
+        kani::assert(r, "C04.evict_fixed.untracked_accepted");
+        let k: usize = kani::any();
+        kani::assume(k < MAX_GROUP_CTR_ENTRIES);
+        if after[k].0 == fab && after[k].1 == node {
+            let j: usize = kani::any();
+            kani::assume(j < MAX_GROUP_CTR_ENTRIES);
+            kani::assert(before[k].4 <= before[j].4, "C04.evict_fixed.victim_was_lru");
+            kani::assert(j == k || after[j] == before[j], "C04.evict_fixed.others_untouched");
+            kani::assert(after[k].2 == m && after[k].3 == 0xffff, "C04.evict_fixed.fresh_window_for_new_sender");
+        }
+        kani::assert(!st.post_recv(fab, node, m), "C04.evict_fixed.replay_refused");
+        kani::cover!(before[0].4 > before[15].4, "lru is not the first slot");
+    }
+
     /// Store below capacity (reduced: 3 tracked senders) - quick tier, labelled bounded.
     // TIER: quick   KIND: bounded (3 of 16 tracked group senders)
     #[kani::proof]
